@@ -123,6 +123,14 @@ T = {
  'C17-m2': ('C17', 'TestSuiteInfo.tests counts distinct test objects instead of recorded testcases',
             '--repeat N with --xml, or a test with two outcomes (body failure + cleanup error)',
             'C17 quick: C17:count', 'caught at once'),
+ 'C07-m1': ('C07', 'spawn_layer_in_subprocess decodes the child\'s stderr once and splits it as text (str.splitlines splits at U+2028 / U+2029 / U+0085 / VT / FF / FS-RS too)',
+            'a failing test id (e.g. a subTest description) containing one of those characters; every following name shifts by one',
+            'C07 quick: C07:lost|seps, C07:lost|mixed',
+            'caught (id spellings include VT / FS / NEL / U+2028); a first, too broad version of fix 02e69d3 (child joining str.splitlines()) masked this change and altered such names itself - the fix was narrowed to \\r'),
+ 'C07-m2': ('C07', 'Runner.run: the feature report loop moved into the finally clause, so a layer subprocess that dies by an exception unwinding the stack still sends a well-formed "0 0 0" report',
+            'a child leaving a layer setUp / tearDown through sys.exit(n) (also 0), MemoryError or KeyboardInterrupt',
+            'C07 quick: C07:fault-not-recorded|died (family unwind:*); C02 quick: C02:verdict',
+            'MISSED at first (children only died by os._exit / signals); caught after deaths by SystemExit / MemoryError / KeyboardInterrupt from layer hooks were added to C07 and C02'),
 }
 
 
